@@ -24,7 +24,12 @@ type UnifiedMemoryModelRegistry struct {
 	globalUnified     *xsync.Map[string, *domain.UnifiedModel]         // UnifiedID -> UnifiedModel (merged across endpoints)
 	endpoints         *xsync.Map[string, *domain.Endpoint]             // URL -> Endpoint mapping
 	modelEndpointSets *xsync.Map[string, *xsync.Map[string, struct{}]] // ModelID -> Set of endpoint URLs (cached for fast lookup)
-	unificationMutex  sync.Mutex
+	// newest accepted listing per endpoint whose unification is still outstanding. The
+	// unification goroutines are not ordered, so each of them applies the newest listing of
+	// its endpoint (or nothing, when another goroutine already did) instead of its own snapshot.
+	latestListings   map[string][]*domain.ModelInfo
+	latestMu         sync.Mutex
+	unificationMutex sync.Mutex
 }
 
 // NewUnifiedMemoryModelRegistry creates a new registry with unification support
@@ -87,6 +92,7 @@ func NewUnifiedMemoryModelRegistry(logger logger.StyledLogger, unificationConfig
 		globalUnified:       xsync.NewMap[string, *domain.UnifiedModel](),
 		endpoints:           xsync.NewMap[string, *domain.Endpoint](),
 		modelEndpointSets:   xsync.NewMap[string, *xsync.Map[string, struct{}]](),
+		latestListings:      make(map[string][]*domain.ModelInfo),
 	}
 }
 
@@ -108,8 +114,18 @@ func (r *UnifiedMemoryModelRegistry) RegisterModelsWithEndpoint(ctx context.Cont
 
 // RegisterModels overrides the base method to add unification
 func (r *UnifiedMemoryModelRegistry) RegisterModels(ctx context.Context, endpointURL string, models []*domain.ModelInfo) error {
-	// First, register models normally
-	if err := r.MemoryModelRegistry.RegisterModels(ctx, endpointURL, models); err != nil {
+	// First, register models normally; remember the listing as the newest one to unify
+	// (one critical section, so "newest" means the same for the base registry and the unifier)
+	r.latestMu.Lock()
+	err := r.MemoryModelRegistry.RegisterModels(ctx, endpointURL, models)
+	if err == nil {
+		if models == nil {
+			models = []*domain.ModelInfo{}
+		}
+		r.latestListings[endpointURL] = models
+	}
+	r.latestMu.Unlock()
+	if err != nil {
 		return err
 	}
 
@@ -130,6 +146,16 @@ func (r *UnifiedMemoryModelRegistry) RegisterModels(ctx context.Context, endpoin
 func (r *UnifiedMemoryModelRegistry) unifyModelsAsync(ctx context.Context, endpointURL string, models []*domain.ModelInfo) {
 	r.unificationMutex.Lock()
 	defer r.unificationMutex.Unlock()
+
+	// Apply the newest listing of this endpoint, whichever goroutine gets here first
+	r.latestMu.Lock()
+	latest, outstanding := r.latestListings[endpointURL]
+	delete(r.latestListings, endpointURL)
+	r.latestMu.Unlock()
+	if !outstanding {
+		return // already unified by a goroutine spawned for an older listing, or the endpoint was removed
+	}
+	models = latest
 
 	// Get or create endpoint object
 	endpoint, exists := r.endpoints.Load(endpointURL)
@@ -306,8 +332,14 @@ func (r *UnifiedMemoryModelRegistry) GetUnifiedStats(ctx context.Context) (Unifi
 
 // RemoveEndpoint overrides to clean up unified models
 func (r *UnifiedMemoryModelRegistry) RemoveEndpoint(ctx context.Context, endpointURL string) error {
-	// First remove from base registry
-	if err := r.MemoryModelRegistry.RemoveEndpoint(ctx, endpointURL); err != nil {
+	// First remove from base registry; listings still waiting to be unified are obsolete now
+	r.latestMu.Lock()
+	err := r.MemoryModelRegistry.RemoveEndpoint(ctx, endpointURL)
+	if err == nil {
+		delete(r.latestListings, endpointURL)
+	}
+	r.latestMu.Unlock()
+	if err != nil {
 		return err
 	}
 
